@@ -17,7 +17,7 @@ from gambit.kmers import KmerSpec, DEFAULT_KMERSPEC
 from xh.taxo import fork_int, NoTracing
 
 P = json.loads(os.environ.get('XH_PARAMS', '{}') or '{}')
-KS = DEFAULT_KMERSPEC
+KS = KmerSpec(9, 'AT')          # pre-computed signature files and the database use non-default parameters
 NAMES = ['g0.fasta', 'dir/g1.fa.gz', 'g2', 'x/y/g3.fna', 'g4.fa', 'g5.ffn.gz']
 LABELS = ['g0', 'g1', 'g2', 'g3', 'g4', 'g5']
 # six genomes with pairwise distances that are not all distinct and include 0 (identical genomes) and 1 (disjoint)
@@ -67,13 +67,18 @@ def _dist_concrete(qsrc, rsrc, nq, nr, qp, rp):
     def load_signatures(path, **kw):
         return sigfiles[str(path)]
 
+    expected_spec = KS if (qsrc == 2 or rsrc in (2, 3)) else DEFAULT_KMERSPEC
+
     def calc_file_signatures(kspec, files, **kw):
-        # files were resolved against the base directory; the genome is identified by the listed name
+        # files were resolved against the base directory; the genome is identified by the listed name.  A signature
+        # computed with other k-mer parameters than the pre-computed side lives in another index space: model that by
+        # a disjoint set of values, so that a parameter mix-up shows up in the distances
         out_ = []
         for f in files:
             p = str(f.path)
             match = [n for n in NAMES if p == n or p.endswith('/' + n)]
-            out_.append(sig_for(max(match, key=len)))
+            s_ = sig_for(max(match, key=len))
+            out_.append(s_ if kspec == expected_spec else (s_ + 100000).astype('u4'))
         return SignatureList(out_, kspec, dtype=np.dtype('u4'))
 
     saved = (cdist.load_signatures, cdist.calc_file_signatures, cdist.omp_set_num_threads)
